@@ -11,6 +11,7 @@ import concurrent.futures as cf
 import glob, json, os, shutil, subprocess, sys, tempfile
 
 V = "/verif"
+SEED_DIR = os.environ.get("SEED_DIR", f"{V}/seeded")     # patches of not yet confirmed seeds can be tried from a scratch directory
 PIDS = sorted(os.path.basename(p)[:-3].upper() for p in glob.glob(f"{V}/sa/rules/c[0-9][0-9].py"))
 
 
@@ -25,7 +26,7 @@ def one(sid):
         shutil.copytree(os.environ.get("SEED_SRC", "/repo") + "/src/lian", f"{tmp}/src/lian", ignore=shutil.ignore_patterns("__pycache__", "*.so"))
         if os.path.isdir(os.environ.get("SEED_SRC", "/repo") + "/default_settings"):
             shutil.copytree(os.environ.get("SEED_SRC", "/repo") + "/default_settings", f"{tmp}/default_settings")
-        r = sh(f"patch -p1 -s -d {tmp} < {V}/seeded/{sid}/patch.diff")
+        r = sh(f"patch -p1 -s -d {tmp} < {SEED_DIR}/{sid}/patch.diff")
         if r.returncode != 0:
             return sid, {"error": "patch does not apply: " + (r.stdout + r.stderr)[-300:]}
         ev = f"{tmp}/ev"
@@ -51,7 +52,7 @@ def one(sid):
 
 
 def main():
-    sids = sys.argv[1:] or sorted(d for d in os.listdir(f"{V}/seeded") if os.path.exists(f"{V}/seeded/{d}/patch.diff"))
+    sids = sys.argv[1:] or sorted(d for d in os.listdir(SEED_DIR) if os.path.exists(f"{SEED_DIR}/{d}/patch.diff"))
     res = {}
     with cf.ThreadPoolExecutor(max_workers=8) as ex:
         for sid, r in ex.map(one, sids):
@@ -64,8 +65,10 @@ def main():
                 for k in keys[:2]:
                     print(f"         {pid}: {k}")
     path = f"{V}/seeded/MATRIX.json"
+    if SEED_DIR != f"{V}/seeded":
+        path = os.devnull
     old = {}
-    if sys.argv[1:] and os.path.exists(path):
+    if sys.argv[1:] and os.path.exists(path) and path != os.devnull:
         old = json.load(open(path))
     old.update(res)
     json.dump(dict(sorted(old.items())), open(path, "w"), indent=1)
